@@ -463,6 +463,10 @@ def selftest(m, cls, par):
                 if m.value(x) - fstar > par["L"] / 2 * m.dist_opt(x) ** 2 + t:
                     return "quadratic growth fails at %s" % x
             if cls == "RsiEbFunction":
+                # the library states RSI- / EB+ with respect to THE declared stationary point: the class is read as
+                # "functions with a unique minimiser x* satisfying both inequalities relative to x*"
+                if len(m.stationary) != 1 or m.proj_opt is None:
+                    return "no unique minimiser"
                 g = G[0]
                 pr = m.proj_opt(x)
                 if g @ (x - pr) < par["mu"] * n(x - pr) ** 2 - t or n(g) > par["L"] * n(x - pr) + t:
